@@ -1,7 +1,7 @@
 CONSTANTS
   DEV_CodeNoAgeCheckOnGuess = TRUE
   DEV_LoginLowerNotFold = TRUE
-  DEV_SerialTruncated16 = TRUE
+  DEV_SerialTruncated16 = FALSE
   DEV_ApiKeyPanicsOnShortDecode = TRUE
   VectorsFile = "c12_vectors.ndjson"
 INIT Init
